@@ -1003,7 +1003,8 @@ def core_exclude_cases(dries=(False,)):
     excluded directory names, patterns that match the state point / document name; exclude as None / str / list."""
     out = []
     tree = {"x": ["A", 1000], "keep": ["K", 1000], "sub/x": ["B", 1000], "sub/keep": ["K", 1000], "sub/deep/x": ["C", 1000],
-            "sub/deep/keep": ["K", 1000], "logs/a": ["L", 1000], "logs/x": ["M", 1000]}
+            "sub/deep/keep": ["K", 1000], "logs/a": ["L", 1000], "logs/x": ["M", 1000],
+            "sub/" + FN_SP: ['{"nested": 1}', 1000], "sub/deep/" + FN_DOC: ['{"nested": 2}', 1000]}   # merely carry the names
     patterns = [None, "x", ["x"], ["x", "keep$"], "logs", ["deep", "logs"], "sub", ".*", "signac", [".*json", "x"], []]
     for ex in patterns:
         for scen in ("clone", "leftonly_dir", "common_dirs", "mixed"):
